@@ -11,4 +11,4 @@ for m in 1 2 3; do
   echo $d
 done > /tmp/import_$P.list
 git -C /repo worktree remove --force /tmp/mut${R}_$p
-cat /tmp/import_$P.list | xargs -P 3 -I{} sh -c '/venv/bin/python tools/run_seeded.py {} > /tmp/rs_$(basename {}).log 2>&1'
+flock /tmp/import_mut.lock cat /tmp/import_$P.list | flock /tmp/import_run.lock xargs -P 3 -I{} sh -c '/venv/bin/python tools/run_seeded.py {} > /tmp/rs_$(basename {}).log 2>&1'
